@@ -48,6 +48,7 @@ type c20Fixture struct {
 	pendingAuth    string
 	pendingCmid    uint64
 	batchA, batchB uint64 // ids of inputs that produced an output batch (JOIN of a, JOIN of b)
+	tailPrev       uint64 // id of the batch in front of the newest one: GetNext(tailPrev) hands out the tail
 	spare          *ircserver.IRCServer
 }
 
@@ -124,6 +125,12 @@ func c20NewFixture(t *testing.T, dir string) *c20Fixture {
 	f.pending, f.pendingAuth = robust.Id{Id: f.next}, "auth-p-0123456789"
 	apply(ircserver.VEntry{Type: robust.IRCFromClient, Session: f.pending, Data: "PASS :services=svcpw", ClientMessageId: f.next + 100, RemoteAddr: "10.0.0.4"})
 	f.pendingCmid = f.next + 99 // the client message id of that PASS line
+	for id := f.o.LastSeen().Id - 1; id > 0; id-- {
+		if _, ok := f.o.Get(robust.Id{Id: id}); ok {
+			f.tailPrev = id
+			break
+		}
+	}
 	if _, ok := f.o.Get(robust.Id{Id: f.batchA}); !ok {
 		t.Fatal("HARNESS: fixture batch missing")
 	}
@@ -223,6 +230,12 @@ func c20Ops() []c20Op {
 		{"OutputStream.Get (cold batch)", "http", func(f *c20Fixture) { f.o.Get(robust.Id{Id: f.batchB}) }},
 		{"OutputStream.Get (warm batch)", "http", func(f *c20Fixture) { f.o.Get(robust.Id{Id: f.batchA}) }},
 		{"OutputStream.GetNext (chain)", "http", func(f *c20Fixture) { f.o.GetNext(context.Background(), robust.Id{Id: f.batchB - 1}) }},
+		// the reader is handed the batch that is the tail right now (the next Add rewrites that batch's successor link)
+		{"OutputStream.GetNext (returns the tail)", "http", func(f *c20Fixture) {
+			for _, m := range f.o.GetNext(context.Background(), robust.Id{Id: f.tailPrev}) {
+				_ = len(m.Data) + len(m.InterestingFor)
+			}
+		}},
 		{"OutputStream.GetNext (range search)", "http", func(f *c20Fixture) { f.o.GetNext(context.Background(), robust.Id{Id: f.a.Id}) }},
 		{"OutputStream.LastSeen+InterruptGetNext", "http", func(f *c20Fixture) { f.o.LastSeen(); f.o.InterruptGetNext() }},
 		{"LevelDBStore reads", "http", func(f *c20Fixture) {
